@@ -483,7 +483,9 @@ where
 pub struct RequestCacheKey<Endpoint: Ord + Clone> {
     /// Request type as an integer to make it easy to derive Ord.
     request_type_ord: u8,
-    path: Vec<String>,
+    /// Raw Uri-Path segments: a segment that is not valid UTF-8 still names
+    /// a path of its own.
+    path: Vec<Vec<u8>>,
     requester: Option<Endpoint>,
 }
 
@@ -495,7 +497,11 @@ impl<Endpoint: Ord + Clone> From<&CoapRequest<Endpoint>>
             request_type_ord: u8::from(MessageClass::Request(
                 *request.get_method(),
             )),
-            path: request.get_path_as_vec().unwrap_or_default(),
+            path: request
+                .message
+                .get_option(CoapOption::UriPath)
+                .map(|segments| segments.iter().cloned().collect())
+                .unwrap_or_default(),
             requester: request.source.clone(),
         }
     }
